@@ -388,6 +388,84 @@ def e_insert_function(s, r):
     return ("insert-function-with-mask-first-before-old-functions", "function")
 
 
+def e_swap_nat_names(s, r):
+    """two '#' declarations (fields or template arguments) exchange their names while every reference keeps its text: references now point elsewhere"""
+    cands = []
+    for d, c, k in combinators(s):
+        nats = [g for g in c.fields if g.typ.kind == "nat" and g.arr is None and not g.mask]
+        refd = [g for g in nats if _referenced(c, g.name)]
+        if len(nats) >= 2 and refd:
+            cands.append(("fields", d, c, k, nats, refd))
+        if d is not None and len(d.params) >= 2 and any(_referenced(cc, p) for cc in d.constructors for p, _ in d.params):
+            cands.append(("params", d, c, k, None, None))
+    if not cands:
+        return None
+    what, d, c, kind, nats, refd = r.pick(cands)
+    if what == "fields":
+        a = r.pick(refd)
+        # the partner must also be declared before the first reference to either name (no forward references after the swap)
+        def first_ref(name):
+            for i, f in enumerate(c.fields):
+                if (f.mask and f.mask[0].val == name) or (f.arr is not None and f.arr.kind == "field" and f.arr.val == name) or any(
+                        (t.kind == "tuple" and t.size.kind == "field" and t.size.val == name) or (t.kind == "ref" and any(x.kind == "field" and x.val == name for x in t.args)) for t, _, _ in walk_types(f.typ)):
+                    return i
+            return len(c.fields)
+        others = [g for g in nats if g is not a]
+        limit = min(first_ref(a.name), min(first_ref(g.name) for g in others))
+        others = [g for g in others if c.fields.index(g) < limit and c.fields.index(a) < limit]
+        if not others:
+            return None
+        b = r.pick(others)
+        where = set()
+        for f in c.fields:
+            for nm in (a.name, b.name):
+                if f.mask and f.mask[0].val == nm:
+                    where.add("mask")
+                if f.arr is not None and f.arr.kind == "field" and f.arr.val == nm:
+                    where.add("brackets")
+                for t, _, _ in walk_types(f.typ):
+                    if t.kind == "tuple" and t.size.kind == "field" and t.size.val == nm:
+                        where.add("brackets" if f.arr is not None else "tuple-argument")
+                    if t.kind == "ref" and any(x.kind == "field" and x.val == nm for x in t.args):
+                        where.add("brackets" if f.arr is not None else "template-argument")
+        a.name, b.name = b.name, a.name
+        return ("swap-names-of-two-nat-fields", "referenced-in-" + "+".join(sorted(where)) + "/" + kind)
+    i, j = 0, 1 + r.below(len(d.params) - 1)
+    where = set()
+    for cc in d.constructors:
+        for f in cc.fields:
+            for nm in (d.params[i][0], d.params[j][0]):
+                if f.mask and f.mask[0].val == nm:
+                    where.add("mask")
+                if f.arr is not None and f.arr.val == nm:
+                    where.add("brackets")
+                for t, _, _ in walk_types(f.typ):
+                    if t.kind == "tuple" and t.size.val == nm:
+                        where.add("brackets" if f.arr is not None else "tuple-argument")
+                    if t.kind == "ref" and any(x.val == nm for x in t.args if x.kind in ("param", "field")):
+                        where.add("brackets" if f.arr is not None else "template-argument")
+    if not where:
+        return None
+    d.params[i], d.params[j] = (d.params[j][0], d.params[i][1]), (d.params[i][0], d.params[j][1])
+    return ("swap-names-of-two-template-arguments", "referenced-in-" + "+".join(sorted(where)) + "/type")
+
+
+def e_move_constructor(s, r):
+    """a constructor moves to another type while its old type gets a new constructor (the count does not drop)"""
+    unions = [d for d in s.decls if d.kind in ("union", "enum") and not d.params]
+    if len(unions) < 2:
+        return None
+    src = r.pick(unions)
+    dst = r.pick([d for d in unions if d is not src])
+    i = r.below(len(src.constructors))
+    c = src.constructors.pop(i)
+    if not c.explicit:
+        c.explicit = True
+    dst.constructors.append(c)
+    src.constructors.append(Constructor("%sZz%d" % (src.lname, r.below(1000)), (r.next() & 0xffffffff) | 1, True, []))
+    return ("move-constructor-to-another-type", "constructor")
+
+
 def recursion_family(r):
     """mutually recursive types that forward one external field mask to each other; returns (old schema, new schema, kind):
     the new schema appends a field under a bit that the *other* type of the cycle already gives a meaning to"""
@@ -499,7 +577,7 @@ SAFE = [lambda s, r: e_append_masked_field(s, r), e_append_constructor, e_add_ty
 UNSAFE = [e_remove_constructor, e_remove_function, lambda s, r: e_remove_field(s, r, True), lambda s, r: e_remove_field(s, r, False), e_change_prim, e_change_prim, e_change_prim,
           e_change_mask_bit, e_change_mask_ref, e_add_mask, e_remove_mask, e_append_unmasked_field, lambda s, r: e_append_masked_field(s, r, True),
           lambda s, r: e_struct_to_union(s, r, True), e_remove_template_arg, e_repoint_mask_ref, e_repoint_size_ref,
-          lambda s, r: e_append_field_every_union_constructor(s, r, True)]
+          lambda s, r: e_append_field_every_union_constructor(s, r, True), e_swap_nat_names, e_move_constructor]
 
 
 def run_linter(ctx, pairs):
